@@ -358,6 +358,14 @@ func (x *Exec) guardCall(st *State, key string, args []Val, recvOwned bool, pos 
 					}
 				}
 			}
+			if v.Sort == sortIface {
+				// an object kept in an interface-typed field declared `guard M: *f`
+				if k, o := heapOfSelect(v); k != "" {
+					if cl := x.env.con.guardSpec().Owner[k]; cl != nil && !x.freshRefs[o] {
+						x.assertClass(st, cl, o, "passing the guarded object in "+k+" to "+key, pos)
+					}
+				}
+			}
 		}
 	}
 }
